@@ -137,12 +137,12 @@ Qed.
 Lemma copy_result_opt cs g c d0 (rank : node -> nat) :
   (forall n x, In x (succ' g n) -> rank x < rank n) ->
   forall tr st full fuel,
-  closed_nodes g d0 -> mt_consistent g -> rank (c_root c) < fuel ->
+  c_xroots c = [] -> closed_nodes g d0 -> mt_consistent g -> rank (c_root c) < fuel ->
   accepts_opt cs g c d0 tr = Some (st, full) -> returned st = Some true ->
   forall n, has g (dst st) n = has g (copy_result g d0 fuel (c_root c)) n.
 Proof.
-  intros Hr tr st full fuel Hc Hm Hf Ha.
-  apply (copy_result_lemma g c d0 rank Hr full st fuel Hc Hm Hf).
+  intros Hr tr st full fuel Hx0 Hc Hm Hf Ha.
+  apply (copy_result_lemma g c d0 rank Hr full st fuel Hx0 Hc Hm Hf).
   exact (run_opt_sound cs g c tr _ _ _ Ha).
 Qed.
 
